@@ -380,7 +380,18 @@ func sample(c Case) any {
 	if len(s) > 40 {
 		s = fmt.Sprintf("%s…(%d)", s[:40], len(s))
 	}
-	return map[string]any{"kind": c.Kind, "region": fmt.Sprintf("%s %d %d", c.Name, c.RegionStart, c.regionEnd()), "sequence": s, "features": c.Features, "wrap": c.Wrap, "directives": c.Directives}
+	feats := append([]Feat{}, c.Features...)
+	for i, f := range feats {
+		attrs := map[string]string{}
+		for k, v := range f.Attrs {
+			if len(v) > 80 {
+				v = fmt.Sprintf("%s…(%d bytes)", v[:60], len(v))
+			}
+			attrs[k] = v
+		}
+		feats[i].Attrs = attrs
+	}
+	return map[string]any{"kind": c.Kind, "region": fmt.Sprintf("%s %d %d", c.Name, c.RegionStart, c.regionEnd()), "sequence": s, "features": feats, "wrap": c.Wrap, "directives": c.Directives}
 }
 
 var fieldGen = rapid.OneOf(
@@ -423,6 +434,11 @@ func drawFeature(t *rapid.T, i, n int, seqid string) Feat {
 		v := ""
 		if rapid.IntRange(0, 6).Draw(t, fmt.Sprintf("f%d_attr_empty", i)) != 0 {
 			v = fieldGen.Draw(t, fmt.Sprintf("f%d_attr_value", i))
+			// field text of any length (a Note copied from a paper's abstract, a list of cross references): the
+			// feature's line then exceeds the usual fixed line buffers of 4 KiB and 64 KiB
+			if rapid.IntRange(0, 59).Draw(t, fmt.Sprintf("f%d_attr_long", i)) == 0 {
+				v = strings.Repeat(v+",", rapid.SampledFrom([]int{4000, 4100, 9000, 66000, 140000}).Draw(t, fmt.Sprintf("f%d_attr_len", i))/(len(v)+1)+1)
+			}
 		}
 		f.Attrs[k] = v
 	}
